@@ -27,9 +27,10 @@ TARGETS = ['valjean.javert.table_repr:repr_testresultequal', 'valjean.javert.tab
            'valjean.javert.rst:Rst.format_result']
 BOUNDS = {'quick': {'kinds': KINDS, 'datasets': '1-d 3 bins with 1 or 2 compared datasets; 2-d (2,2) with 1 dataset', 'failing pattern': 'every subset of bins',
                     'verbosity': 'all 6 levels', 'representers': ['TableRepresenter', 'FullTableRepresenter'],
-                    'slices': 'every unit-step slice of a 3-row table; join of two tables'},
+                    'slices': 'every unit-step slice of a 3-row table; join of two tables',
+                    'joins of result tables': 'tables of two results of the same kind (Student, Bonferroni, metadata, the three statistics kinds) joined at DEFAULT / INTERMEDIATE / FULL_DETAILS'},
           'thorough': {'kinds': KINDS, 'datasets': 'as quick + 2-d with 2 datasets + scalar', 'verbosity': 'all 6 levels'}}
-ASSUMPTIONS = ['cell values are concrete distinct numbers so that rows can be recognised after formatting; the failing pattern, kind, verbosity and slice are solver-chosen',
+ASSUMPTIONS = ['cell values are concrete distinct numbers so that rows can be recognised after formatting (Bonferroni / Holm 1-d jobs: optionally NaN in the first failing bin); the failing pattern, kind, verbosity and slice are solver-chosen',
                'a "mark" is the :hl: role or the word KO in the produced text; silent verbosity is outside the statement',
                'read-back clause: every produced table is parsed with docutils on each path (concrete text): no message of level >= warning, one table, '
                'headers, and per column the multiset of (cell text, highlighted) equal to the template (numbers up to 1e-6 relative); metadata values '
@@ -138,7 +139,8 @@ def make_harness(kind, shape, nds):
         from valjean.javert.verbosity import Verbosity
         from valjean.javert.representation import TableRepresenter, FullTableRepresenter
         from valjean.javert.templates import TableTemplate
-        res, info = build_result(ex, kind, shape, nds, True)
+        # Bonferroni / Holm: optionally a NaN cell in the first failing bin (an undefined p-value is rejected, and must be marked)
+        res, info = build_result(ex, kind, shape, nds, True, with_nan=(kind in ('bonferroni', 'holm') and shape == '1d'))
         verbs = list(Verbosity)
         v = verbs[ex.choice(len(verbs), 'verbosity')]
         rep = [TableRepresenter, FullTableRepresenter][ex.choice(2, 'representer')]()
@@ -264,7 +266,46 @@ def make_slice_harness():
     return harness
 
 
+def make_join_harness(kind):
+    """the tables of TWO results of the same kind are joined (as a report that concatenates several campaigns does):
+    the joined table holds the rows and highlights of the first followed by those of the second, and reads back"""
+    def harness(ex):
+        from valjean.javert.verbosity import Verbosity
+        from valjean.javert.representation import Representation, TableRepresenter
+        from valjean.javert.templates import TableTemplate
+        from valjean.javert.rst import RstTable
+        ra, _ = build_result(ex, kind, '1d', 1, True, tag='a')
+        rb, _ = build_result(ex, kind, '1d', 1, True, tag='b')
+        verbs = [Verbosity.DEFAULT, Verbosity.INTERMEDIATE, Verbosity.FULL_DETAILS]
+        v = verbs[ex.choice(len(verbs), 'verbosity')]
+        rep = Representation(TableRepresenter(), verbosity=v)
+        ta = [t for t in rep(ra) if isinstance(t, TableTemplate)]
+        tb = [t for t in rep(rb) if isinstance(t, TableTemplate)]
+        for t1, t2 in zip(ta, tb):
+            if list(t1.headers) != list(t2.headers):
+                continue
+            want_cols = [list(np.asarray(c1).reshape(-1)) + list(np.asarray(c2).reshape(-1)) for c1, c2 in zip(t1.columns, t2.columns)]
+            want_hls = [[bool(x) for x in np.asarray(h1).reshape(-1)] + [bool(x) for x in np.asarray(h2).reshape(-1)]
+                        for h1, h2 in zip(t1.highlights, t2.highlights)]
+            j = t1.copy()
+            try:
+                j.join(t2)
+            except Exception as e:      # noqa
+                ex.check(False, 'join:tables-with-the-same-headers-can-be-joined', detail=f'{type(e).__name__}: {e}')
+                continue
+            got_cols = [list(np.asarray(c).reshape(-1)) for c in j.columns]
+            got_hls = [[bool(x) for x in np.asarray(h).reshape(-1)] for h in j.highlights]
+            ex.check(len(got_cols) == len(want_cols) and all(len(g) == len(w) and all(_same_cell(a, b) for a, b in zip(g, w))
+                                                             for g, w in zip(got_cols, want_cols)),
+                     'join:rows-of-the-first-table-then-rows-of-the-second')
+            ex.check(got_hls == want_hls, 'join:highlights-stay-with-their-rows')
+            _check_read_back(ex, RstTable, [j])
+    return harness
+
+
 def _job(kind, shape, nds, timeout_ms, seed=0):
+    if shape == 'join':
+        return run_sym('x', make_join_harness(kind), timeout_ms=timeout_ms, seed=seed, max_paths=3000000)
     h = make_slice_harness() if kind == 'slice' else make_harness(kind, shape, nds)
     return run_sym('x', h, timeout_ms=timeout_ms, seed=seed, max_paths=3000000)
 
@@ -280,6 +321,8 @@ def jobs(tier):
             combos = [('1d', 1)]
         for shape, nds in combos:
             out.append((f'{kind}-{shape}-n{nds}', _job, dict(kind=kind, shape=shape, nds=nds, timeout_ms=20000)))
+    for kind in ('student', 'bonferroni', 'metadata', 'stats_tasks', 'stats_tests', 'stats_bylabels'):
+        out.append((f'{kind}-join', _job, dict(kind=kind, shape='join', nds=1, timeout_ms=20000)))
     return out
 
 
@@ -287,6 +330,7 @@ def replay(rp):
     for j in jobs('thorough') + jobs('quick'):
         if j[0] == rp['job']:
             p = j[2]
-            h = make_slice_harness() if p['kind'] == 'slice' else make_harness(p['kind'], p['shape'], p['nds'])
+            h = make_slice_harness() if p['kind'] == 'slice' else make_join_harness(p['kind']) if p['shape'] == 'join' \
+                else make_harness(p['kind'], p['shape'], p['nds'])
             return replay_sym(h, rp['inputs'])
     raise KeyError(rp['job'])
